@@ -346,11 +346,15 @@ package forwarder
 //@ ensures result != nil
 
 //@ func (*Dialer).DialContext
-//@ property C05
+//@ property C05 C13
 //@ requires d != nil && ctx != nil && d.metrics != nil
-//@ modifies *, netDialed(), rdOut()
+//@ modifies *, netDialed(), rdOut(), dialLabel()
 //@ ensures old(d.rd) == nil ==> netDialed() == address
 //@ ensures old(d.rd) != nil ==> netDialed() == rdOut()
+// (C13) when the connection is tracked, the variable the close callback reads
+// holds the label under which the dial was counted
+//@ ensures result1 == nil && dialLabel() != old(dialLabel()) ==> final(address) == dialLabel()
+//@ ensures result1 == nil && dialLabel() != old(dialLabel()) ==> dialLabel() == netDialed()
 
 // The package initialiser establishes the global invariants of this file.
 //@ func init
@@ -456,3 +460,25 @@ package forwarder
 //@ modifies *, promVal
 //@ ensures result1 == nil ==> result0 != nil && promVal(old(l.metrics.active)) == old(promVal(l.metrics.active)) + 1
 //@ ensures result1 != nil ==> result0 == nil && promVal(old(l.metrics.active)) == old(promVal(l.metrics.active))
+
+// ---- dial-side connection accounting (C13 L13.4): one label per connection ----
+// The per-host "active" gauge goes up under the label of the address that was
+// dialled and must come down under the same label when the connection closes.
+//@ ghost ivar dialLabel() string
+//@ ghost ivar closeLabel() string
+//@ func (*dialerMetrics).dial
+//@ trusted
+//@ modifies dialLabel()
+//@ ensures dialLabel() == addr
+//@ func (*dialerMetrics).close
+//@ trusted
+//@ modifies closeLabel()
+//@ ensures closeLabel() == addr
+//@ pure (*forwarder.dialerMetrics).error (*forwarder.dialerMetrics).retry
+
+// (the close callback handed to conntrack: it reports the address variable of DialContext)
+//@ func (*Dialer).DialContext$1
+//@ property C13
+//@ requires d != nil && d.metrics != nil
+//@ modifies closeLabel()
+//@ ensures closeLabel() == address
